@@ -105,6 +105,67 @@ def check_delete_order(ctx):
     finish(ctx, ob, bad, 'delete_keyspace/order')
 
 
+def check_delete_own(ctx):
+    """delete_keyspace(handle) may only remove the keyspace the handle belongs to: a handle of an earlier, already deleted keyspace of the same name
+    must not take the present keyspace of that name with it"""
+    pat = r'^db::<impl>::delete_keyspace$'
+    ob = ctx.ob('delete/only-own', 'delete_keyspace(handle): the dictionary entry and the stored metadata are removed only if the keyspace registered under that name IS the handle\'s keyspace (same id)', [pat])
+    ex, paths = ctx.run(pat, cache_key='delks.own', loop_bound=3, no_inline=[r'MetaKeyspace::maintenance$'])
+    bad = []
+    from .c05 import find_objs
+    for p in paths:
+        if p.status != 'returned':
+            continue
+        rm = [e for e in p.events if e.kind == 'MAP_REMOVE']
+        get = [e for e in p.events if e.kind == 'MAP_GET']
+        if not rm:
+            continue
+        ob.reach += 1
+        # id of the keyspace found in the dictionary: the value the tombstone keys were built from
+        fr = p.st.frames[0]
+        handle = deref(fr.locals[fr.fn.args[1]].val)
+        hin = find_objs(handle, lambda o: o.ty.split('<')[0].endswith('KeyspaceInner'))
+        names = ex.src.struct_fields('KeyspaceInner')
+        hid = hin[0].fields[names.index('id')].val if hin and names.index('id') in hin[0].fields else None
+        tomb = [e for e in p.events if e.kind == 'CALL' and e.args.get('callee', '').endswith('write_tombstone')]
+        rid = None
+        for t in tomb:
+            v = deref(t.args['args'][1])
+            if isinstance(v, Obj) and 'segs' in v.data:
+                for k_, x in v.data['segs']:
+                    if k_ == 'be64':
+                        rid = x
+        if rid is None:
+            bad.append((p, 'cannot identify the keyspace whose metadata is removed')); continue
+        if hid is None or not z3.is_expr(hid):
+            # the code never looked at the handle's id: the removal cannot depend on it
+            bad.append((p, 'the keyspace registered under the handle\'s name is removed without comparing it with the handle (ids never compared): a stale handle of an earlier keyspace of that name deletes the present one, '
+                           'whose own handles keep accepting writes that are lost at the next reopen')); continue
+        if ctx.sat(p.pc + [rid != hid], ob)[0] != z3.unsat:
+            bad.append((p, 'the keyspace registered under the handle\'s name can have another id than the handle\'s keyspace and is removed all the same')); continue
+    if ob.reach == 0:
+        ob.status = 'undecided'; ob.detail = 'vacuous'
+    elif not bad:
+        ob.status = 'discharged'; ob.sample = {'paths': ob.reach}
+    else:
+        ctx.candidate(ob, 'delete_keyspace/stale-handle-deletes-new-keyspace', f'{ob.id}: {bad[0][1]}', confirm=lambda: native_stale_delete(ctx))
+
+
+def native_stale_delete(ctx):
+    L = ['dir $DIR/db', 'open workers=0', 'ks a', 'insert a 6b31 31', 'delete_ks a keep', 'ks a', 'insert a 6b32 32', 'delete_ks a#old', 'list_ks', 'insert a 6b33 33', 'dump a', 'close',
+         'open workers=0', 'list_ks', 'ks a', 'dump a', 'close']
+    spath, out = ctx.run_scenario('\n'.join(L) + '\n', tag='stale-delete')
+    if any(c == 'CRASH' for _i, c, _r in out):
+        return True, spath, 'crash: ' + out[-1][2][-200:]
+    lk = [r for _i, c, r in out if c == 'list_ks']; dumps = [r for _i, c, r in out if c == 'dump']
+    ins = [r for _i, c, r in out if c == 'insert']
+    if lk and lk[0] != '[a]':
+        return True, spath, f'create a; delete a; create a again; delete_keyspace(handle of the FIRST a) => the second keyspace a is gone from the database (keyspaces: {lk[0]}), yet writes through its handle are still acknowledged ({ins[-1:]}) and lost after reopen (content after reopen: {dumps[-1:]})'
+    if len(dumps) == 2 and dumps[0] != dumps[1]:
+        return True, spath, f'content of the re-created keyspace differs after reopen: {dumps}'
+    return False, spath, 'held natively'
+
+
 def check_meta_removed(ctx):
     pat = r'^meta_keyspace::<impl>::remove_keyspace$|MetaKeyspace::remove_keyspace$'
     ob = ctx.ob('delete/meta-removed', 'MetaKeyspace::remove_keyspace: on success a tombstone was ingested for the id->name key (b\'n\' ++ id) and for every '
@@ -480,6 +541,7 @@ def run(ctx):
     check_isolation(ctx)
     check_deleted(ctx)
     check_delete_order(ctx)
+    check_delete_own(ctx)
     check_meta_removed(ctx)
     check_create_atomic(ctx)
     check_recover_keyspaces(ctx)
